@@ -35,6 +35,46 @@ def _parent(key):
     return key.rsplit("::", 1)[0] if "::" in key else ""
 
 
+def _walk_substr(o, rules):
+    """replace moved type paths wherever they occur inside a string (type strings embed paths: `Vec<a::b::T>`)"""
+    pats = [(new_, re.compile(re.escape(new_) + r"(?![A-Za-z0-9_])"), old_) for new_, old_ in rules]
+    stack = [o]
+    while stack:
+        x = stack.pop()
+        it = x.items() if isinstance(x, dict) else (enumerate(x) if isinstance(x, list) else ())
+        for k, v in list(it):
+            if isinstance(v, str):
+                for new_, rx, old_ in pats:
+                    if new_ in v:
+                        v = rx.sub(old_, v)
+                        x[k] = v
+            elif isinstance(v, (dict, list)):
+                stack.append(v)
+
+
+def plan_moves(crate_j):
+    """types that were moved to another module of the same crate: [(current path, pinned path)]"""
+    sp = spec()
+    crate = crate_j.get("crate", "")
+    padts = sp.get("adts", {})
+    if not padts:
+        return [], []
+    cur = {}
+    for a in crate_j.get("adts", []):
+        cur[a["key"]] = [a.get("kind", ""), [[v.get("name", "")] + [f["name"] for f in v.get("fields", [])] for v in a.get("variants", [])]]
+    missing = [k for k in padts if k.split("::")[0] == crate and k not in cur]
+    added = [k for k in cur if k not in padts]
+    out, report = [], []
+    used = set()
+    for m in sorted(missing):
+        cands = [a for a in added if a not in used and a.rsplit("::", 1)[-1] == m.rsplit("::", 1)[-1] and cur[a] == padts[m]]
+        if len(cands) == 1:
+            used.add(cands[0])
+            out.append((cands[0], m))
+            report.append("type %s is the pinned %s (moved, same shape)" % (cands[0], m))
+    return out, report
+
+
 def _walk_replace(o, prefixes, exact_fields):
     """in-place replacement over a JSON tree. prefixes: [(old, new)] applied to strings equal to old or starting with
     old + '::' ; exact_fields: {adt: {new field name: old}} applied to place projections and adt aggregates"""
@@ -106,6 +146,26 @@ def plan(crate_j, phase):
             if k.split("::")[0] == crate and k.rsplit("::", 1)[-1].startswith("{impl#"):
                 pin_by_mod.setdefault(_parent(k), []).append((k, slf, tr))
         tmp_n = [0]
+        # an impl block that moved to another module together with its type
+        cur_sigs = {}
+        for im in cur_impls:
+            cur_sigs.setdefault((im.get("self", ""), im.get("trait", "") or ""), []).append(im)
+        pin_sigs = {}
+        for k, (slf, tr) in pimpls.items():
+            if k.split("::")[0] == crate and k.rsplit("::", 1)[-1].startswith("{impl#"):
+                pin_sigs.setdefault((slf, tr), []).append(k)
+        cur_keys = set(im["key"] for im in cur_impls)
+        moved_n = [0]
+        for sig, pks in sorted(pin_sigs.items()):
+            cims0 = cur_sigs.get(sig, [])
+            if len(pks) == 1 and len(cims0) == 1 and pks[0] not in cur_keys and cims0[0]["key"] not in pimpls \
+                    and _parent(pks[0]) != _parent(cims0[0]["key"]):
+                tmp = "%s::{impl@m%d}::{user}" % (_parent(cims0[0]["key"]), moved_n[0])
+                moved_n[0] += 1
+                prefixes.append((cims0[0]["key"], tmp))
+                prefixes.append((tmp, pks[0]))
+                report.append("impl %s is the pinned %s (moved with its type)" % (cims0[0]["key"], pks[0]))
+                by_mod[_parent(cims0[0]["key"])] = [im for im in by_mod.get(_parent(cims0[0]["key"]), []) if im is not cims0[0]]
         for mod, cims in sorted(by_mod.items()):
             pins = sorted(pin_by_mod.get(mod, []))
             if not pins:
@@ -234,6 +294,14 @@ def canonicalise_all(crates):
     """crates: list of crate JSON objects (lib crates of one extraction). Plans per crate, applies to all (a renamed
     public field or fn is referenced from other crates too). Returns the list of report lines."""
     all_report = []
+    moves = []
+    for j in crates:
+        mv, rp = plan_moves(j)
+        moves += mv
+        all_report += rp
+    if moves:
+        for j in crates:
+            _walk_substr(j, moves)
     for phase in (1, 2):
         prefixes, fields, report = [], {}, []
         for j in crates:
